@@ -50,7 +50,8 @@ func FetchCursor(ctx context.Context, scope *ReferenceScope, name parser.Identif
 }
 
 func DeclareView(ctx context.Context, scope *ReferenceScope, expr parser.ViewDeclaration) error {
-	if scope.TemporaryTableExists(expr.View.Literal) {
+	// Like variables, cursors and functions, a view is redeclared only if the current block already has it.
+	if scope.Blocks[0].TemporaryTables.Exists(strings.ToUpper(expr.View.Literal)) {
 		return NewTemporaryTableRedeclaredError(expr.View)
 	}
 
